@@ -704,7 +704,7 @@ def shrink(ctx, f):
     def attempt(trial):
         nonlocal case, best
         o = _fails(trial)
-        if o:
+        if o and o[2] == best[2]:  # same clause of the property
             case, best = trial, o
             return True
         return False
